@@ -156,6 +156,8 @@ SAN_ASSUME = [
 
 def plan_C02(q, seed):
     jobs = wf_core(q, weak=2) + [fam_job("WF", 60000 if q else 1500000, time_limit=20 if q else 300)]
+    jobs += [fam_job("WF", 40000 if q else 800000, time_limit=15 if q else 300, extra=["--drop-variants"], label="family-WF-dropvariants-e1"),
+             enum_job(2, 2, extra=["--drop-variants"])]
     jobs += [e2(enum_job(2, 2)), e2(enum_job(3, 1, sample=64 if q else 2, time_limit=25 if q else 400))]
     jobs += san_samples(q, weak=2)
     jobs += [e2(fam_job("WF", 15000 if q else 300000, time_limit=20 if q else 300))]
@@ -190,10 +192,15 @@ def plan_C03(q, seed):
         # stale records *inside* a group do not excuse it from being collected (every real handle is
         # still explained by a recorded adoption of a member); only a stale record held by an outsider does
         rand_job("ELIDE", 60000 if q else 1200000, time_limit=20 if q else 300, label="rand-ELIDE-sync-e1"),
+        # handles given up through into_raw + decrement_strong_count (by the program and inside destructors) and make_mut
+        fam_job("FULL", 60000 if q else 1200000, time_limit=20 if q else 300, extra=["--drop-variants"], label="family-FULL-dropvariants-e1"),
+        enum_job(3, 1, cls="FULL", full=True, extra=["--drop-variants"], time_limit=20 if q else 100),
+        rand_job("CONSUME", 60000 if q else 1200000, time_limit=20 if q else 300, extra=["--consume-bias", "3"], label="rand-CONSUME-sync-e1"),
     ]
     jobs += [e3(fam_job("FULL", 100000, extra=["--max-n", "5"], lo=1 << 20), 30 if q else 600)]
     return {
         "jobs": jobs,
+        "accept_foreign": [["C12", "sync"]],
         "rule": "fully recorded shapes (every 2- and 3-object shape, sampled 4-object shapes), rings/cliques/chords/lists/tails/shared cycles/parallel edges with every choice of last outside handle, random histories; at every handle drop (top-level and nested inside destructors) the ledger computes the set the property requires (forward closure over recorded adoptions, all handles explained) and demands End events for all of it before that drop returns. Non-trivial = the rule required a collection that involved a group or a zero-count object with adoptions; distinct = distinct operation sequences",
         "assumptions": E1_ASSUME + SAN_ASSUME,
         "require": {"stats.required_groups": 1000, "paths.group": 500},
@@ -248,10 +255,13 @@ def plan_C06(q, seed):
         fam_job("WF", 60000 if q else 1500000, time_limit=20 if q else 300),
         # counts and identity across make_mut, raw round trips, increment/decrement_strong_count
         rand_job("CONSUME", 80000 if q else 1500000, time_limit=20 if q else 300, extra=["--consume-bias", "4"], label="rand-CONSUME-counts-e1"),
+        # a collection of *other* objects must not change the count of a live one, also when stale
+        # records and given-up allocations are around (violations carrying the known C13 signature are not accepted)
+        rand_job("ELIDE", 60000 if q else 1200000, time_limit=20 if q else 300, extra=["--consume-bias", "2"], label="rand-ELIDE-consume-counts-e1"),
     ]
     return {
         "jobs": jobs,
-        "accept_foreign": [["C12", "count"]],
+        "accept_foreign": [["C12", "count"], ["C13", "live"], ["C13", "once"]],
         "rule": "after every operation, for every live object (also unreachable garbage, read through stored handles by reference): Rc::strong_count, Rc::weak_count, Weak::strong_count, Weak::weak_count, as_ptr (must equal the address at creation) and pairwise ptr_eq of all handles are compared with the ledger. Non-trivial = counts were compared in a history where objects were destroyed (partial collections next to survivors); distinct = distinct operation sequences",
         "require": {"stats.count_obs": 100000, "paths.group": 100},
     }
